@@ -136,7 +136,12 @@ def extract(repo=REPO, use_cache=True, log=None, thorough=False):
             except OSError:
                 shutil.rmtree(tmpdest, ignore_errors=True)
         # keep the cache small: retain the 12 most recent trees
-        ents = sorted((os.path.getmtime(os.path.join(CACHE, e)), e) for e in os.listdir(CACHE))
+        ents = []
+        for e in os.listdir(CACHE):
+            if '.' in e: continue                      # another process's tree under construction (key.pid): not ours to touch
+            try: ents.append((os.path.getmtime(os.path.join(CACHE, e)), e))
+            except OSError: pass                       # renamed / evicted by a concurrent run between listdir and stat
+        ents.sort()
         for _, e in ents[:-int(os.environ.get('VERIF_CACHE_KEEP', '12'))]:
             shutil.rmtree(os.path.join(CACHE, e), ignore_errors=True)
         info['wall_s'] = round(time.time() - t0, 2)
